@@ -351,11 +351,20 @@ impl FilterHeaderAction {
             unit_trace matches Some(t) ==> true,
     { unimplemented!() }
 }
-// R8 outlined expression (iterator adapters over the foreign LinkedHashSet + join): value of the X-RedirectionIo-RuleIds header, unconstrained
+// R8 outlined expression (iterator adapters over the foreign LinkedHashSet + join): value of the X-RedirectionIo-RuleIds header = the ids of the
+// list, joined by ';' (a named function of the list). The code has ONE of two shapes: the applied-rule list (statement: "applied-rule list") or the
+// similarly named list of all matched rules; each shape has its own helper, so the verifier sees which list is joined
+pub uninterp spec fn joined(ids: Seq<Seq<char>>) -> Seq<char>;
 #[verifier::external_body]
-pub fn outl_join_rule_ids(this: &Action) -> (r: String)
+pub fn outl_join_rule_ids(this: &Action) -> (r: String) ensures r@ == joined(this.rules_applied@)
 {
     /* verbatim: self.get_applied_rule_ids().iter().cloned().collect::<Vec<String>>().join(";") */
+    unimplemented!()
+}
+#[verifier::external_body]
+pub fn outl_join_all_rule_ids(this: &Action) -> (r: String) ensures r@ == joined(this.rule_ids@)
+{
+    /* verbatim: self.rule_ids.iter().cloned().collect::<Vec<String>>().join(";") */
     unimplemented!()
 }
 
@@ -369,8 +378,8 @@ impl Action {
     //@| ensures final(self).rules_applied@ == applied_headers(old(self).header_filters@, response_status_code, applied_traces(old(self).rule_traces@, response_status_code, old(self).rules_applied@)),
     //@|     av(*final(self)) == (AV { applied: final(self).rules_applied@, ..av(*old(self)) }),
     //@|     !add_rule_ids_header ==> hsview(r@) == fold_filters(admitted_headers(old(self).header_filters@, response_status_code), hsview(headers@)),
-    //@|     add_rule_ids_header ==> r@.len() > 0 && hsview(r@.drop_last()) == fold_filters(admitted_headers(old(self).header_filters@, response_status_code), hsview(headers@)) && r@.last().name@ == "X-RedirectionIo-RuleIds"@,
-    //@| outline `self.get_applied_rule_ids().iter().cloned().collect::<Vec<String>>().join(";")` => `outl_join_rule_ids(self)`
+    //@|     add_rule_ids_header ==> r@.len() > 0 && hsview(r@.drop_last()) == fold_filters(admitted_headers(old(self).header_filters@, response_status_code), hsview(headers@)) && r@.last().name@ == "X-RedirectionIo-RuleIds"@ && r@.last().value@ == joined(final(self).rules_applied@),
+    //@| outline `self.get_applied_rule_ids().iter().cloned().collect::<Vec<String>>().join(";")` => `outl_join_rule_ids(self)` || `self.rule_ids.iter().cloned().collect::<Vec<String>>().join(";")` => `outl_join_all_rule_ids(self)`
     //@| entry let ghost ts = self.rule_traces@; let ghost hf = self.header_filters@; let ghost ap0 = self.rules_applied@; let ghost a0 = av(*self); let ghost h0 = hsview(headers@);
     //@| loop 0: invariant 0 <= vf_it0_idx <= vf_it0_rem0.len(), vf_it0.remaining() == vf_it0_rem0.skip(vf_it0_idx), vf_it0_rem0.len() == ts.len(),
     //@|         forall|i: int| 0 <= i < ts.len() ==> *#[trigger] vf_it0_rem0[i] == ts[i],
